@@ -37,6 +37,15 @@ def _apply_perturb(data, p):
         i = idxs[n % len(idxs)]
         chunks[i] = (b"CVAL", struct.pack("<i", value))
         return chunkio.join(chunks)
+    if kind == "vers":  # ["vers", n]: the file claims to be written by an older / newer SunVox
+        versions = ((1, 7, 0, 0), (1, 9, 4, 2), (1, 9, 5, 0), (1, 9, 6, 1), (2, 0, 0, 0), (2, 1, 2, 1))
+        v = versions[p[1] % len(versions)]
+        chunks = [(nm, pl) for _, nm, pl in chunkio.split(data)]
+        for i, (nm, pl) in enumerate(chunks):
+            if nm == b"VERS" and len(pl) == 4:
+                chunks[i] = (nm, bytes(reversed(v)))
+                break
+        return chunkio.join(chunks)
     if kind == "payload":  # ["payload", chunk_id, n, offset, byte]: rewrite one payload byte
         _, cid, n, off, byte = p
         cid = cid.encode()
